@@ -163,6 +163,21 @@ def rule_revalidation(ctx: Ctx):
     on = next((n for n in walk_local(fn) if isinstance(n, ast.FunctionDef)), None)
     okidx = on is not None and any(isinstance(n, ast.Subscript) and norm(n.value) == "self.extractors" and norm(n.slice) == on.args.args[0].arg for n in walk_local(on))
     ctx.ob("R-C14-1", f"{q}/hit-id-is-extractor-position", okidx, "the match id reported by Hyperscan indexes self.extractors", node=on or fn, mod=tm)
+    # every hit the callback records reaches the re-validation: the candidate list is filled by the callback only and is neither rebound,
+    # filtered nor shrunk before the loop that re-matches its entries (dropping "redundant" hits changes which tokens exist: the reference
+    # tokenizer decides overlaps on the tokens, not on raw pattern matches)
+    if on is not None:
+        hits = {norm(c_.func.value) for c_ in walk_local(on) if isinstance(c_, ast.Call) and isinstance(c_.func, ast.Attribute) and c_.func.attr in ("append", "add")}
+        for H in sorted(hits):
+            binds = [s_ for s_ in stmts_local(fn.body) if isinstance(s_, (ast.Assign, ast.AnnAssign, ast.AugAssign)) and H in assigned_names(s_)]
+            shrinks = [c_ for c_ in walk_local(fn) if isinstance(c_, ast.Call) and isinstance(c_.func, ast.Attribute) and norm(c_.func.value) == H
+                       and c_.func.attr in ("pop", "remove", "clear", "discard", "sort", "reverse", "difference_update", "intersection_update")]
+            loops = [l_ for l_ in walk_local(fn) if isinstance(l_, ast.For) and norm(l_.iter) == H and any(isinstance(y_, ast.Yield) for y_ in ast.walk(l_))]
+            okh = len(binds) == 1 and norm(binds[0].value) in ("[]", "list()", "set()") and not shrinks and len(loops) == 1
+            ctx.ob("R-C14-1", f"{q}/{H}:every-hit-is-revalidated", okh,
+                   f"`{H}` starts empty, is filled by the scan callback only and is iterated as it is by the loop that re-matches and yields "
+                   f"(bindings {[norm(b_)[:40] for b_ in binds]}, shrinking calls {[norm(c_)[:30] for c_ in shrinks]}, yielding loops over it: {len(loops)})",
+                   node=(binds[1] if len(binds) > 1 else shrinks[0] if shrinks else fn), mod=tm)
     # byte offset -> str offset by decoding; undecodable offsets are dropped
     dec = [n for n in walk_local(fn) if isinstance(n, ast.Call) and isinstance(n.func, ast.Attribute) and n.func.attr == "decode"]
     okd = False
